@@ -1,10 +1,11 @@
 #!/bin/bash
-# Offline setup: build the rewriter and warm the Go build cache with one mirror build.
+# Offline setup: build the rewriter and the crash-point interposer, warm the Go build cache with one mirror build.
 set -e
 export GOFLAGS=-mod=mod GOPROXY=off GOSUMDB=off GOTOOLCHAIN=local CGO_ENABLED=1
 HERE="$(cd "$(dirname "$0")" && pwd)"
 mkdir -p "$HERE/bin"
 (cd "$HERE/mc/vinst" && go build -o "$HERE/bin/vinst" .)
+gcc -O2 -fPIC -shared -o "$HERE/bin/crashpoint.so" "$HERE/mc/crash/crashpoint.c" -ldl
 W="$HOME/.cache/verif-work/setup.$$"
 "$HERE/mc/build.sh" "$W"
 rm -rf "$W"
